@@ -14,7 +14,6 @@ import (
 	"google.golang.org/grpc/status"
 	"google.golang.org/protobuf/proto"
 	"google.golang.org/protobuf/reflect/protoreflect"
-	"google.golang.org/protobuf/types/dynamicpb"
 )
 
 func init() {
@@ -25,82 +24,6 @@ func init() {
 // One backend handler, written against a byte-level stream, runs in both worlds: natively behind a
 // real grpc.Server (vfBackendConn), under the engine behind an in-memory stream made of channels
 // (vfConnNewStream / vfConnInvoke replace grpc-go's client transport).
-
-type vfBackendScript struct {
-	replies [][]byte // encoded reply messages, in order
-	final   error    // the handler's return value (nil or a status error)
-	failAt  int      // with final != nil: 0 before reading anything, 1 right after the first reply, 2 at the end
-	drain   int      // client-streaming shapes: 0 read the requests up to end-of-stream before replying, 1 after replying, 2 never (the handler returns without reading the rest)
-}
-
-type vfBackendObs struct {
-	calls  int
-	reqs   [][]byte
-	md     []string
-	sawEOF bool
-}
-
-type vfByteStream interface {
-	Context() context.Context
-	RecvBytes() ([]byte, error) // io.EOF at the client's end-of-stream
-	SendBytes([]byte) error
-}
-
-func vfBackendRun(sc *vfBackendScript, obs *vfBackendObs, cs bool, st vfByteStream) error {
-	obs.calls++
-	if md, ok := metadata.FromIncomingContext(st.Context()); ok {
-		obs.md = md["x-md"]
-	}
-	if sc.final != nil && sc.failAt == 0 {
-		return sc.final
-	}
-	drain := func() error {
-		for {
-			b, err := st.RecvBytes()
-			if err == io.EOF {
-				obs.sawEOF = true
-				return nil
-			}
-			if err != nil {
-				return err
-			}
-			obs.reqs = append(obs.reqs, b)
-		}
-	}
-	if !cs {
-		b, err := st.RecvBytes()
-		if err != nil {
-			return status.Error(codes.Internal, "backend: no request")
-		}
-		obs.reqs = append(obs.reqs, b)
-	} else if sc.drain == 0 {
-		if err := drain(); err != nil {
-			return err
-		}
-	}
-	for i, rp := range sc.replies {
-		if err := st.SendBytes(rp); err != nil {
-			return err
-		}
-		if sc.final != nil && sc.failAt == 1 && i == 0 {
-			return sc.final
-		}
-	}
-	if cs && sc.drain == 1 {
-		if err := drain(); err != nil {
-			return err
-		}
-	}
-	return sc.final
-}
-
-// vfProxyBackends: what each backend connection does (set by the harness before the call).
-type vfProxyBackend struct {
-	script *vfBackendScript
-	obs    *vfBackendObs
-}
-
-var vfProxyTable = map[*grpc.ClientConn]*vfProxyBackend{}
 
 // ---- engine side: in-memory transport ------------------------------------------------------------
 
@@ -238,37 +161,6 @@ func vfConnInvoke(cc *grpc.ClientConn, ctx context.Context, method string, args,
 }
 
 // ---- native side: the same handler behind a real grpc.Server -----------------------------------------
-
-type vfNativeByteStream struct {
-	grpc.ServerStream
-	req, resp protoreflect.MessageDescriptor
-}
-
-func (s vfNativeByteStream) RecvBytes() ([]byte, error) {
-	m := dynamicpb.NewMessage(s.req)
-	if err := s.ServerStream.RecvMsg(m); err != nil {
-		return nil, err
-	}
-	return proto.Marshal(m)
-}
-func (s vfNativeByteStream) SendBytes(b []byte) error {
-	m := dynamicpb.NewMessage(s.resp)
-	if err := proto.Unmarshal(b, m); err != nil {
-		return err
-	}
-	return s.ServerStream.SendMsg(m)
-}
-
-// vfNativeProxyHandler is installed by vfBackendConn for every method of a backend natively.
-func vfNativeProxyHandler(be func() *vfProxyBackend, cs bool, req, resp protoreflect.MessageDescriptor) grpc.StreamHandler {
-	return func(srv interface{}, stream grpc.ServerStream) error {
-		b := be()
-		if b == nil {
-			return status.Error(codes.Unavailable, "verif: unknown backend")
-		}
-		return vfBackendRun(b.script, b.obs, cs, vfNativeByteStream{stream, req, resp})
-	}
-}
 
 // ---- the codec of the client -> larking leg ----------------------------------------------------------
 
